@@ -138,7 +138,7 @@ class MCtx:
             self.idx, self.parent.idx if self.parent else -1, self.state,
             tuple(sorted((k, c["v"], c["gen"]) for k, c in self.res.items())),
             tuple(sorted((k, f["label"], f.get("kind", "")) for k, f in self.fac.items())),
-            tuple(self.teardown), tuple(sorted(self.fac_calls.items())),
+            tuple(self.teardown), tuple(sorted(self.fac_calls.items())), getattr(self, "marks", 0),
         )
 
 
@@ -412,6 +412,34 @@ class Universe:
                     # "the factory is called once": also a factory whose callable is cheap to call and returns the awaitable
                     self.fail("factory", f"{op} on c{idx}: one asynchronous lookup invoked the factory callable {sum(self.fac_invoked.values()) - inv0} times")
                 return ("val", self.lab(r))
+            if kind == "boomp":
+                # a lookup through the PARENT context (not the current one) that fails inside a resource factory
+                par = ctx.parent
+                if par is None:
+                    return ("ok", None)
+
+                class _Boom:
+                    pass
+
+                def bad() -> Any:
+                    raise HE("the factory fails")
+
+                async def abad() -> Any:
+                    await asyncio.sleep(0)
+                    raise HE("the factory fails")
+
+                self.nfac += 1
+                nm = f"boom{self.nfac}"
+                par.add_resource_factory(bad, nm, types=_Boom)
+                par.add_resource_factory(abad, "a" + nm, types=_Boom)
+                for call in (lambda: par.get_resource_nowait(_Boom, nm), lambda: par.get_resource(_Boom, "a" + nm)):
+                    try:
+                        r0 = call()
+                        if hasattr(r0, "__await__"):
+                            await r0
+                    except HE:
+                        pass
+                return ("ok", None)
             if kind == "list":
                 # get_resources() through the module-level shortcut (the actor is inside its context: it is the current one)
                 _, tname = op
@@ -547,6 +575,9 @@ class Universe:
             m.teardown.append(op[1])
             m.td_raises = True
             return ("ok", None)
+        if kind == "boomp":
+            m.marks = getattr(m, "marks", 0) + 1  # (kept in the canonical state: what follows such a lookup is explored in its own right)
+            return ("ok", None)
         if kind == "list":
             return ("val", tuple(sorted((n, c["v"]) for (t, n), c in m.res.items() if t == op[1])))
         if kind == "get":
@@ -583,6 +614,10 @@ class Universe:
     # ---- comparing -----------------------------------------------------------------------------
     def compare_reply(self, idx: int, op: tuple, got: tuple, exp: tuple) -> None:
         kind = op[0]
+        if kind in ("boomp", "list") and got[0] == "exc":
+            # (operations of the harness itself: an exception here is never filtered by the check's aspects)
+            self.fails.append(("harness", f"{op} on c{idx} raised {got[1]}"))
+            return
         if exp[0] == "exc":
             if got[0] != "exc":
                 asp = "lifecycle" if exp[1] == "RuntimeError" else ("factory" if exp[1] == "AsyncResourceError" else ("visible" if kind == "get" else "conflict"))
